@@ -100,7 +100,7 @@ impl Property for C06 {
         let _ = tier;
         let codes: Vec<&str> = vec!["Nemeth", "UEB", "CMU", "Vietnam", "LaTeX", "ASCIIMath", "Swedish", "ASCIIMath-fi"];
         let prefs = (sel(&["Grade1", "Grade2"]), any::<bool>(), any::<bool>(), any::<bool>(), any::<bool>()).prop_map(|(start, spaces, drop, short, spaces2)| vec![("UEB_StartMode".to_string(), start.to_string()), ("UEB_UseSpacesAroundAllOperators".to_string(), spaces.to_string()), ("Vietnam_UseDropNumbers".to_string(), drop.to_string()), ("LaTeX_UseShortName".to_string(), short.to_string()), ("UseSpacesAroundAllOperators".to_string(), spaces2.to_string())]);
-        (prop_oneof![planted_textbook(true, 0.25, cfg.clone()), planted_textbook(false, 0.25, cfg)], sel(&codes), prefs).prop_map(|(planted, code, prefs)| Case { planted, code: code.to_string(), prefs }).boxed()
+        (prop_oneof![planted_textbook(true, 0.25, cfg.clone()), planted_textbook_with(false, 0.25, cfg, true)], sel(&codes), prefs).prop_map(|(planted, code, prefs)| Case { planted, code: code.to_string(), prefs }).boxed()
     }
     fn eval(&self, case: &Case) -> Outcome {
         let mut prefs = vec![("BrailleCode".to_string(), case.code.clone()), ("BrailleNavHighlight".to_string(), "Off".to_string()), ("Language".to_string(), "en".to_string()), ("DecimalSeparator".to_string(), "Auto".to_string())];
